@@ -60,7 +60,7 @@ def build(ctx):
     S = 'specs/c23_drwlock.c'
     units = []
     rep = ['RW_' + m for m in METHODS]
-    for n in ([1, 2, 4] if ctx.tier == 'quick' else [1, 2, 4, 8, 16]):
+    for n in ([1, 2, 4] if ctx.tier == 'quick' else [1, 2, 4, 8]):   # N=16: try_lock runs out of memory in the SAT reduction (12 GB cap)
         dd = dict(d); dd['KN'] = str(n)
         for fn in ('DRW_lock', 'DRW_try_lock', 'DRW_unlock', 'DRW_lock_shared', 'DRW_try_lock_shared', 'DRW_unlock_shared'):
             units.append(Unit(fn.replace('DRW_', 'DistributedRWLockImpl::'), 'cbmc', S, fn, defines=dd, inst='N=%d' % n, replace=rep, unwind=max(n + 2, 10), timeout=900,
